@@ -263,6 +263,432 @@ Proof.
 Qed.
 
 (* ------------------------------------------------------------------ *)
+(* whole-run invariants: every canonical path is loaded at most once,   *)
+(* every file is evaluated at most once                                 *)
+
+Definition loaded_cps (st : session) : list path :=
+  flat_map (fun e => match e with EvLoaded _ cp _ => [cp] | _ => [] end) (s_log st).
+Definition evaled (st : session) : list N :=
+  flat_map (fun e => match e with EvEval sid _ => [sid] | _ => [] end) (s_log st).
+Definition thunk (st : session) (sid : N) : option tstate := nthN (s_thunks st) sid.
+Definition is_done (o : option tstate) : Prop := exists n l, o = Some (TDone n l).
+Definition cached (st : session) (cp : path) : Prop := assoc_path cp (s_cache st) <> None.
+
+Definition inv (st : session) : Prop :=
+  NoDup (loaded_cps st) /\ NoDup (evaled st) /\
+  (forall cp, In cp (loaded_cps st) -> cached st cp) /\
+  (forall sid, In sid (evaled st) -> is_done (thunk st sid)).
+
+Definition le (st st' : session) : Prop :=
+  (forall cp, cached st cp -> cached st' cp) /\
+  (forall x, is_done (thunk st x) -> is_done (thunk st' x)) /\
+  (forall x, thunk st x = Some TInProgress ->
+             thunk st' x = Some TInProgress /\ (In x (evaled st') -> In x (evaled st))).
+
+Lemma le_refl : forall st, le st st.
+Proof. intros st. repeat split; auto. Qed.
+
+Lemma le_trans : forall a b c, le a b -> le b c -> le a c.
+Proof.
+  intros a b c (A1 & A2 & A3) (B1 & B2 & B3). repeat split; auto.
+  - apply A3 in H. destruct H as [H _]. apply B3 in H. tauto.
+  - intros Hc. pose proof (A3 _ H) as [Hb Hab]. pose proof (B3 _ Hb) as [_ Hbc]. auto.
+Qed.
+
+Definition good {X} (f : session -> session * X) : Prop :=
+  forall st, inv st -> inv (fst (f st)) /\ le st (fst (f st)).
+
+Lemma nthN_some_lt {A} (l : list A) i v : nthN l i = Some v -> (N.to_nat i < length l)%nat.
+Proof.
+  unfold nthN. destruct (N.leb_spec (N.of_nat (length l)) i); [discriminate|]. intros _. lia.
+Qed.
+
+Lemma nthN_app_some {A} (l l' : list A) i v : nthN l i = Some v -> nthN (l ++ l') i = Some v.
+Proof.
+  intros H. pose proof (nthN_some_lt _ _ _ H) as Hlt. unfold nthN in *.
+  rewrite app_length.
+  destruct (N.leb_spec (N.of_nat (length l)) i); [discriminate|].
+  destruct (N.leb_spec (N.of_nat (length l + length l')) i); [lia|].
+  rewrite nth_error_app1 by lia. assumption.
+Qed.
+
+Lemma set_nth_length {A} (l : list A) i x : length (set_nth l i x) = length l.
+Proof. revert i. induction l; destruct i; cbn; auto. Qed.
+
+Lemma nth_error_set_nth_same {A} (l : list A) i x :
+  (i < length l)%nat -> nth_error (set_nth l i x) i = Some x.
+Proof. revert i. induction l; destruct i; cbn; intros; try lia; auto. apply IHl. lia. Qed.
+
+Lemma nth_error_set_nth_other {A} (l : list A) i j x :
+  i <> j -> nth_error (set_nth l i x) j = nth_error l j.
+Proof. revert i j. induction l; destruct i, j; cbn; intros; try congruence; auto. Qed.
+
+Lemma nthN_setN_same {A} (l : list A) i x v : nthN l i = Some v -> nthN (setN l i x) i = Some x.
+Proof.
+  intros H. pose proof (nthN_some_lt _ _ _ H) as Hlt. unfold nthN, setN in *.
+  destruct (N.leb_spec (N.of_nat (length l)) i); [discriminate|].
+  rewrite set_nth_length.
+  destruct (N.leb_spec (N.of_nat (length l)) i); [lia|].
+  apply nth_error_set_nth_same. assumption.
+Qed.
+
+Lemma nthN_setN_other {A} (l : list A) i j x : i <> j -> nthN (setN l i x) j = nthN l j.
+Proof.
+  intros Hne. unfold nthN, setN.
+  destruct (N.leb_spec (N.of_nat (length l)) i); [reflexivity|].
+  rewrite set_nth_length.
+  destruct (N.leb_spec (N.of_nat (length l)) j); [reflexivity|].
+  apply nth_error_set_nth_other. lia.
+Qed.
+
+Lemma thunk_with_thunk_same : forall st sid t v,
+  thunk st sid = Some v -> thunk (with_thunk st sid t) sid = Some t.
+Proof. intros. unfold thunk in *. cbn. eapply nthN_setN_same; eauto. Qed.
+
+Lemma thunk_with_thunk_other : forall st sid t x,
+  x <> sid -> thunk (with_thunk st sid t) x = thunk st x.
+Proof. intros. unfold thunk. cbn. apply nthN_setN_other. congruence. Qed.
+
+(* log entries that are neither a load nor an evaluation *)
+Definition quiet (e : event) : Prop :=
+  match e with EvRead _ | EvMsg _ _ => True | _ => False end.
+
+Lemma with_log_quiet : forall e, quiet e -> good (fun st => (with_log st e, tt)).
+Proof.
+  intros e He st Hi. cbn [fst].
+  assert (Hl : loaded_cps (with_log st e) = loaded_cps st) by (destruct e; cbn in He; try tauto; reflexivity).
+  assert (Hv : evaled (with_log st e) = evaled st) by (destruct e; cbn in He; try tauto; reflexivity).
+  split.
+  - destruct Hi as (I1 & I2 & I3 & I4). unfold inv. rewrite Hl, Hv. repeat split; auto.
+  - unfold le. rewrite Hv. repeat split; auto.
+Qed.
+
+Ltac quiet_step :=
+  cbn [fst];
+  first [ apply (with_log_quiet (EvMsg _ _) I) | apply (with_log_quiet (EvRead _) I) ]; assumption.
+
+Lemma good_fst {X Y} (f : session -> session * X) (g : session -> session * Y) :
+  (forall st, fst (f st) = fst (g st)) -> good f -> good g.
+Proof. intros H Hf st Hi. rewrite <- H. apply Hf. assumption. Qed.
+
+(* replacing a thunk that is not in progress and not yet evaluated by a computed one,
+   or a computed one by a computed one *)
+Lemma with_thunk_done_done : forall st sid n l n' l',
+  inv st -> thunk st sid = Some (TDone n l) ->
+  inv (with_thunk st sid (TDone n' l')) /\ le st (with_thunk st sid (TDone n' l')).
+Proof.
+  intros st sid n l n' l' (I1 & I2 & I3 & I4) Hd.
+  assert (Hsame := thunk_with_thunk_same st sid (TDone n' l') _ Hd).
+  split.
+  - repeat split; auto.
+    intros x Hx. destruct (N.eq_dec x sid) as [->|Hne].
+    + rewrite Hsame. eexists _, _. reflexivity.
+    + rewrite thunk_with_thunk_other by assumption. apply I4. assumption.
+  - repeat split; auto.
+    + intros x Hx. destruct (N.eq_dec x sid) as [->|Hne].
+      * rewrite Hsame. eexists _, _. reflexivity.
+      * rewrite thunk_with_thunk_other by assumption. assumption.
+    + destruct (N.eq_dec x sid) as [->|Hne]; [congruence|].
+      rewrite thunk_with_thunk_other by assumption. assumption.
+Qed.
+
+Section InvProofs.
+  Variable fs : path -> node.
+  Variable canon : path -> path.
+  Variable prog_of : list N -> option prog.
+
+  Lemma load_good : forall p, good (fun st => load_real_file fs canon prog_of st p).
+  Proof.
+    intros p st Hi. unfold Import.load_real_file.
+    destruct (canonicalize fs canon p) as [[]|cp].
+    1-4: quiet_step.
+    destruct (assoc_path cp (s_cache st)) as [sid|] eqn:Hc.
+    { cbn. split; [assumption|apply le_refl]. }
+    destruct (read fs p) as [e|data].
+    { quiet_step. }
+    destruct Hi as (I1 & I2 & I3 & I4).
+    destruct (prog_of data) as [pr|]; cbn [fst].
+    - split.
+      + unfold inv, loaded_cps, evaled, cached, thunk; cbn [s_log s_cache s_thunks flat_map app].
+        fold (loaded_cps st). fold (evaled st). repeat split.
+        * constructor; [|assumption]. intros Hin. apply I3 in Hin. apply Hin. assumption.
+        * assumption.
+        * intros cp' [<-|Hin]; cbn; [rewrite str_eqb_refl; discriminate|].
+          destruct (str_eqb cp' cp); [discriminate|]. apply I3. assumption.
+        * intros x Hx. destruct (I4 _ Hx) as (n & l & Hd). exists n, l.
+          apply nthN_app_some. assumption.
+      + unfold le, cached, thunk, evaled; cbn [s_log s_cache s_thunks flat_map app]. fold (evaled st).
+        repeat split.
+        * intros cp' Hc'. cbn. destruct (str_eqb cp' cp); [discriminate|assumption].
+        * intros x (n & l & Hd). exists n, l. apply nthN_app_some. assumption.
+        * apply nthN_app_some. assumption.
+        * auto.
+    - split.
+      + unfold inv, loaded_cps, evaled, cached, thunk; cbn [s_log s_cache s_thunks flat_map app].
+        fold (loaded_cps st). fold (evaled st). repeat split; auto.
+        intros x Hx. destruct (I4 _ Hx) as (n & l & Hd). exists n, l.
+        apply nthN_app_some. assumption.
+      + unfold le, cached, thunk, evaled; cbn [s_log s_cache s_thunks flat_map app]. fold (evaled st).
+        repeat split; auto.
+        * intros x (n & l & Hd). exists n, l. apply nthN_app_some. assumption.
+        * apply nthN_app_some. assumption.
+  Qed.
+
+  Lemma cb_import_good : forall from p, good (fun st => cb_import fs canon prog_of st from p).
+  Proof.
+    intros from p st Hi. unfold Import.cb_import.
+    destruct (find_import fs st from p).
+    - apply load_good. assumption.
+    - quiet_step.
+  Qed.
+
+  Lemma cb_import_bin_good : forall from p, good (fun st => cb_import_bin fs st from p).
+  Proof.
+    intros from p st Hi. unfold Import.cb_import_bin.
+    destruct (find_import fs st from p) as [q|].
+    - destruct (read fs q); quiet_step.
+    - quiet_step.
+  Qed.
+
+  Lemma cb_import_str_good : forall from p, good (fun st => cb_import_str fs st from p).
+  Proof.
+    intros from p st Hi. unfold Import.cb_import_str.
+    pose proof (cb_import_bin_good from p st Hi) as H.
+    destruct (cb_import_bin fs st from p) as [st' [w|d]]; exact H.
+  Qed.
+
+  Lemma eval_expr_good : forall forcef sid pos e,
+    (forall s, good (forcef s)) -> good (eval_expr fs canon prog_of forcef sid pos e).
+  Proof.
+    intros forcef sid pos e Hf st Hi. destruct e; cbn.
+    - pose proof (cb_import_good (Some sid) p st Hi) as H.
+      destruct (cb_import fs canon prog_of st (Some sid) p) as [st' [w|sid']]; cbn [fst] in *; [exact H|].
+      destruct H as [H1 H2]. pose proof (Hf sid' st' H1) as [H3 H4].
+      destruct (forcef sid' st') as [st'' []]; cbn [fst] in *; split; eauto using le_trans.
+    - pose proof (cb_import_str_good (Some sid) p st Hi) as H.
+      destruct (cb_import_str fs st (Some sid) p) as [st' [w|d]]; exact H.
+    - pose proof (cb_import_bin_good (Some sid) p st Hi) as H.
+      destruct (cb_import_bin fs st (Some sid) p) as [st' [w|d]]; exact H.
+    - split; [assumption|apply le_refl].
+    - split; [assumption|apply le_refl].
+  Qed.
+
+  Lemma eval_strict_good : forall forcef sid es pos,
+    (forall s, good (forcef s)) -> good (eval_strict fs canon prog_of forcef sid pos es).
+  Proof.
+    intros forcef sid es. induction es as [|e es IH]; intros pos Hf st Hi; cbn.
+    - split; [assumption|apply le_refl].
+    - pose proof (eval_expr_good forcef sid pos e Hf st Hi) as [H1 H2].
+      destruct (eval_expr fs canon prog_of forcef sid pos e st) as [st' []]; cbn [fst] in *; auto.
+      pose proof (IH (pos + 1) Hf st' H1) as [H3 H4]. split; eauto using le_trans.
+  Qed.
+
+  Lemma force_good : forall fuel sid, good (force fs canon prog_of fuel sid).
+  Proof.
+    induction fuel as [|f IH]; intros sid st Hi; cbn.
+    - split; [assumption|apply le_refl].
+    - fold (thunk st sid). destruct (thunk st sid) as [[|pr| |n l]|] eqn:Ht; cbn [fst];
+        try (split; [assumption|apply le_refl]).
+      (* Pending *)
+      set (st0 := with_thunk st sid TInProgress).
+      assert (Hsame0 : thunk st0 sid = Some TInProgress) by (eapply thunk_with_thunk_same; eauto).
+      assert (Hoth0 : forall x, x <> sid -> thunk st0 x = thunk st x)
+        by (intros; apply thunk_with_thunk_other; assumption).
+      destruct Hi as (I1 & I2 & I3 & I4).
+      assert (Hnotin : ~ In sid (evaled st)).
+      { intros Hin. destruct (I4 _ Hin) as (n & l & Hd). congruence. }
+      assert (Hi0 : inv st0).
+      { repeat split; auto. intros x Hx. destruct (N.eq_dec x sid) as [->|Hne]; [tauto|].
+        rewrite Hoth0 by assumption. apply I4. assumption. }
+      assert (Hle0 : le st st0).
+      { repeat split; auto.
+        - intros x Hx. destruct (N.eq_dec x sid) as [->|Hne].
+          + destruct Hx as (n & l & Hd). congruence.
+          + rewrite Hoth0 by assumption. assumption.
+        - destruct (N.eq_dec x sid) as [->|Hne]; [congruence|]. rewrite Hoth0 by assumption. assumption. }
+      pose proof (eval_strict_good (force fs canon prog_of f) sid (p_strict pr) 0 IH st0 Hi0) as [H1 H2].
+      destruct (eval_strict fs canon prog_of (force fs canon prog_of f) sid 0 (p_strict pr) st0) as [st' r].
+      cbn [fst] in H1, H2.
+      destruct r; cbn [fst]; try (split; [assumption|eapply le_trans; eauto]).
+      (* strict part succeeded: the file's value is computed now *)
+      destruct H2 as (L1 & L2 & L3). destruct (L3 _ Hsame0) as [Hprog Hev].
+      assert (Hnotin' : ~ In sid (evaled st')) by (intros Hin; apply Hnotin, Hev, Hin).
+      set (st1 := with_log st' (EvEval sid (p_tag pr))).
+      set (t := TDone (N.of_nat (length (p_strict pr))) (map ELazy (p_items pr))).
+      assert (Ht1 : thunk st1 sid = Some TInProgress) by exact Hprog.
+      assert (Hsame : thunk (with_thunk st1 sid t) sid = Some t) by (eapply thunk_with_thunk_same; eauto).
+      assert (Hoth : forall x, x <> sid -> thunk (with_thunk st1 sid t) x = thunk st' x)
+        by (intros; rewrite thunk_with_thunk_other by assumption; reflexivity).
+      destruct H1 as (J1 & J2 & J3 & J4).
+      split.
+      + unfold inv. change (loaded_cps (with_thunk st1 sid t)) with (loaded_cps st').
+        change (evaled (with_thunk st1 sid t)) with (sid :: evaled st').
+        repeat split; auto.
+        * constructor; assumption.
+        * intros x [<-|Hx].
+          -- rewrite Hsame. eexists _, _. reflexivity.
+          -- destruct (N.eq_dec x sid) as [->|Hne]; [tauto|]. rewrite Hoth by assumption. apply J4. assumption.
+      + unfold le. change (evaled (with_thunk st1 sid t)) with (sid :: evaled st').
+        destruct Hle0 as (M1 & M2 & M3).
+        repeat split.
+        * intros cp Hc. apply L1, M1, Hc.
+        * intros x Hx. destruct (N.eq_dec x sid) as [->|Hne].
+          -- rewrite Hsame. eexists _, _. reflexivity.
+          -- rewrite Hoth by assumption. apply L2, M2, Hx.
+        * destruct (N.eq_dec x sid) as [->|Hne]; [congruence|].
+          rewrite Hoth by assumption. apply L3. apply M3. assumption.
+        * intros [<-|Hin]; [congruence|].
+          destruct (N.eq_dec x sid) as [->|Hne]; [congruence|].
+          pose proof (M3 _ H) as [Hx0 Hx0e]. pose proof (L3 _ Hx0) as [_ Hx1]. auto.
+  Qed.
+
+  Lemma manifest_items_good : forall forcef manifestf sid nstrict k j acc,
+    (forall s, good (forcef s)) -> (forall s, good (manifestf s)) ->
+    good (manifest_items fs canon prog_of forcef manifestf sid nstrict k j acc).
+  Proof.
+    intros forcef manifestf sid nstrict k. induction k as [|k IH]; intros j acc Hf Hm st Hi; cbn.
+    - split; [assumption|apply le_refl].
+    - destruct (items_of st sid) as [[n0 items]|] eqn:Hit; [|split; [assumption|apply le_refl]].
+      destruct (nthN items j) as [it|]; [|split; [assumption|apply le_refl]].
+      (* the element's evaluation step, as one good step *)
+      assert (Hstep : forall r,
+        r = (match it with
+             | EDone v => (st, Ok v)
+             | ELazy e =>
+                 match eval_expr fs canon prog_of forcef sid (nstrict + j) e st with
+                 | (st', Ok v) =>
+                     (match items_of st' sid with
+                      | Some (_, items') => with_thunk st' sid (TDone nstrict (setN items' j (EDone v)))
+                      | None => st'
+                      end, Ok v)
+                 | other => other
+                 end
+             end) -> inv (fst r) /\ le st (fst r)).
+      { intros r ->. destruct it as [e|v]; [|split; [assumption|apply le_refl]].
+        pose proof (eval_expr_good forcef sid (nstrict + j) e Hf st Hi) as [H1 H2].
+        destruct (eval_expr fs canon prog_of forcef sid (nstrict + j) e st) as [st' []]; cbn [fst] in *; auto.
+        destruct (items_of st' sid) as [[n1 items']|] eqn:Hit'; auto.
+        unfold items_of in Hit'. fold (thunk st' sid) in Hit'.
+        destruct (thunk st' sid) as [[| | |n2 l2]|] eqn:Ht'; try discriminate.
+        pose proof (with_thunk_done_done st' sid n2 l2 nstrict (setN items' j (EDone a)) H1 Ht') as [H3 H4].
+        split; eauto using le_trans. }
+      match goal with |- context [match ?R with (st1, _) => _ end] => specialize (Hstep R eq_refl); destruct R as [st1 r1] end.
+      cbn [fst] in Hstep. destruct Hstep as [H1 H2].
+      destruct r1 as [[s|b|sid']| | |]; try (split; assumption).
+      + pose proof (IH (j + 1) (VStr s :: acc) Hf Hm st1 H1) as [H3 H4]. split; eauto using le_trans.
+      + pose proof (IH (j + 1) (VBytes b :: acc) Hf Hm st1 H1) as [H3 H4]. split; eauto using le_trans.
+      + pose proof (Hm sid' st1 H1) as [H3 H4].
+        destruct (manifestf sid' st1) as [st2 [a| | |]]; cbn [fst] in *;
+          [|split; [assumption|eapply le_trans; eassumption] ..].
+        pose proof (IH (j + 1) (a :: acc) Hf Hm st2 H3) as [H5 H6].
+        split; [assumption|]. eapply le_trans; [eassumption|]. eapply le_trans; eassumption.
+  Qed.
+
+  Lemma manifest_good : forall fuel sid, good (manifest fs canon prog_of fuel sid).
+  Proof.
+    induction fuel as [|f IH]; intros sid st Hi; cbn.
+    - split; [assumption|apply le_refl].
+    - destruct (items_of st sid) as [[n items]|]; [|split; [assumption|apply le_refl]].
+      apply manifest_items_good; auto. intros s. apply force_good.
+  Qed.
+
+  Lemma inv_new : forall search, inv (new_session search).
+  Proof. intros. repeat split; cbn; try constructor; intros; contradiction. Qed.
+
+  Lemma run_main_inv : forall fuel jpaths main,
+    inv (fst (run_main fs canon prog_of fuel jpaths main)).
+  Proof.
+    intros fuel jpaths main. unfold run_main.
+    pose proof (load_good main (cli_session jpaths) (inv_new _)) as [H1 _].
+    destruct (load_real_file fs canon prog_of (cli_session jpaths) main) as [st [w|sid]]; cbn [fst] in *; [assumption|].
+    pose proof (force_good fuel sid st H1) as [H2 _].
+    destruct (force fs canon prog_of fuel sid st) as [st' []]; cbn [fst] in *; try assumption.
+    apply manifest_good. assumption.
+  Qed.
+
+  (* in every run, whatever the tree, the options and the outcome: no canonical
+     path is loaded twice and no file is evaluated twice *)
+  Theorem loaded_once : forall fuel jpaths main,
+    NoDup (loaded_cps (fst (run_main fs canon prog_of fuel jpaths main))).
+  Proof. intros. apply run_main_inv. Qed.
+
+  Theorem evaluated_once : forall fuel jpaths main,
+    NoDup (evaled (fst (run_main fs canon prog_of fuel jpaths main))).
+  Proof. intros. apply run_main_inv. Qed.
+End InvProofs.
+
+(* ------------------------------------------------------------------ *)
+(* importstr on well-formed UTF-8 is the exact text                     *)
+
+Ltac Zify.zify_post_hook ::= Z.to_euclidean_division_equations.
+
+Ltac hyps :=
+  repeat match goal with
+  | H : (_ <? _) = true |- _ => apply N.ltb_lt in H
+  | H : (_ <? _) = false |- _ => apply N.ltb_ge in H
+  | H : (_ || _) = true |- _ => apply orb_true_iff in H
+  | H : (_ && _) = true |- _ => apply andb_true_iff in H
+  end.
+Ltac tr := unfold is_cont; unfold in_rng; repeat rewrite ?andb_true_iff, ?N.leb_le, ?N.ltb_ge, ?N.ltb_lt, ?N.eqb_neq, ?N.eqb_eq; lia.
+
+Lemma lossy_enc1 : forall c rest, is_scalar c = true ->
+  lossy (utf8_enc1 c ++ rest) = c :: lossy rest.
+Proof.
+  intros c rest Hs.
+  assert (Hs' : c < 55296 \/ (57343 < c /\ c < 1114112)).
+  { unfold is_scalar in Hs. apply orb_true_iff in Hs. destruct Hs as [Hs|Hs].
+    - left. apply N.ltb_lt. exact Hs.
+    - right. apply andb_true_iff in Hs. destruct Hs as [A B].
+      apply N.ltb_lt in A. apply N.ltb_lt in B. split; assumption. }
+  clear Hs. unfold utf8_enc1.
+  destruct (c <? 128) eqn:H1.
+  { cbn [app lossy]. rewrite H1. reflexivity. }
+  destruct (c <? 2048) eqn:H2.
+  { cbn [app lossy]. hyps. clear Hs'.
+    assert (E1 : (192 + c / 64 <? 128) = false) by tr.
+    assert (E2 : in_rng 194 223 (192 + c / 64) = true) by tr.
+    assert (E3 : is_cont (128 + c mod 64) = true) by tr.
+    rewrite E1, E2, E3. f_equal. lia. }
+  destruct (c <? 65536) eqn:H3.
+  { cbn [app lossy]. hyps. destruct Hs' as [Hs'|[Hs' Hs'']].
+    all: assert (E1 : (224 + c / 4096 <? 128) = false) by tr.
+    all: assert (E2 : in_rng 194 223 (224 + c / 4096) = false)
+      by (unfold in_rng; apply andb_false_iff; right; apply N.leb_gt; lia).
+    all: assert (E3 : in_rng 224 239 (224 + c / 4096) = true) by tr.
+    all: assert (E5 : is_cont (128 + c mod 64) = true) by tr.
+    all: rewrite E1, E2, E3.
+    all: assert (E4 : in_rng (if 224 + c / 4096 =? 224 then 160 else 128)
+                        (if 224 + c / 4096 =? 237 then 159 else 191) (128 + (c / 64) mod 64) = true)
+      by (destruct (224 + c / 4096 =? 224) eqn:A; [apply N.eqb_eq in A|apply N.eqb_neq in A];
+          (destruct (224 + c / 4096 =? 237) eqn:B; [apply N.eqb_eq in B|apply N.eqb_neq in B]);
+          unfold in_rng; apply andb_true_iff; split; apply N.leb_le; lia).
+    all: rewrite E4, E5; f_equal; lia. }
+  cbn [app lossy]. hyps. destruct Hs' as [Hs'|[Hs' Hs'']]; [lia|].
+  assert (E1 : (240 + c / 262144 <? 128) = false) by tr.
+  assert (E2 : in_rng 194 223 (240 + c / 262144) = false)
+    by (unfold in_rng; apply andb_false_iff; right; apply N.leb_gt; lia).
+  assert (E3 : in_rng 224 239 (240 + c / 262144) = false)
+    by (unfold in_rng; apply andb_false_iff; right; apply N.leb_gt; lia).
+  assert (E3' : in_rng 240 244 (240 + c / 262144) = true) by tr.
+  assert (E5 : is_cont (128 + (c / 64) mod 64) = true) by tr.
+  assert (E6 : is_cont (128 + c mod 64) = true) by tr.
+  rewrite E1, E2, E3, E3'.
+  assert (E4 : in_rng (if 240 + c / 262144 =? 240 then 144 else 128)
+                      (if 240 + c / 262144 =? 244 then 143 else 191) (128 + (c / 4096) mod 64) = true).
+  { destruct (240 + c / 262144 =? 240) eqn:A; [apply N.eqb_eq in A|apply N.eqb_neq in A];
+      (destruct (240 + c / 262144 =? 244) eqn:B; [apply N.eqb_eq in B|apply N.eqb_neq in B]);
+      unfold in_rng; apply andb_true_iff; split; apply N.leb_le; lia. }
+  rewrite E4, E5, E6. f_equal. lia.
+Qed.
+
+Theorem lossy_of_valid_utf8 : forall s, forallb is_scalar s = true -> lossy (utf8_enc s) = s.
+Proof.
+  induction s as [|c s IH]; cbn [forallb utf8_enc flat_map]; intros H; [reflexivity|].
+  apply andb_true_iff in H. destruct H as [Hc Hs].
+  rewrite lossy_enc1 by assumption. f_equal. apply IH. assumption.
+Qed.
+
+(* ------------------------------------------------------------------ *)
 (* a small concrete world for the non-vacuity examples of Props/C13.v  *)
 
 Definition str_of (s : string) : str :=
